@@ -33,6 +33,7 @@ import (
 type C13Case struct {
 	Prog      gen.ProgCase `json:"prog"`
 	BreakFile int          `json:"break_file"` // >= 0: one compile error injected into that file
+	BreakKind int          `json:"break_kind,omitempty"`
 	// SyntaxErrors: files that get an (independent) syntax error each. With two or more, the error text
 	// may depend on the file order - but never on the repetition or the process.
 	SyntaxErrors []int `json:"syntax_errors,omitempty"`
@@ -82,7 +83,35 @@ func artefact(c C13Case, order []int) (art string, imports int, suffixed bool) {
 func artefact2(c C13Case, order []int) (art string, imports int, suffixed bool, repeatErr error) {
 	names, srcs := gen.Sources(&c.Prog.Prog)
 	if c.BreakFile >= 0 && c.BreakFile < len(srcs) {
-		srcs[c.BreakFile] += "\n/** */\n{template .zzBroken}{call .zzNoSuchTemplate /}{/template}\n"
+		switch c.BreakKind {
+		case 1, 2:
+			// the missing callee has namesakes in every other file (in other namespaces), and the one
+			// error's text must not depend on which of them the compiler meets first
+			call := "{call .zzCand /}"
+			if c.BreakKind == 2 {
+				call = "{call zz.nowhere.zzCand /}"
+			}
+			srcs[c.BreakFile] += "\n/** */\n{template .zzBroken}" + call + "{/template}\n"
+			seenNS := map[string]bool{c.Prog.Prog.Files[c.BreakFile].Namespace: true}
+			for k := range srcs {
+				if ns := c.Prog.Prog.Files[k].Namespace; !seenNS[ns] {
+					seenNS[ns] = true // (one namesake per namespace: a template defined twice is another error)
+					srcs[k] += "\n/** @param? zzUndeclared */\n{template .zzCand}{$zzUndeclared ?: 'c'}{/template}\n"
+				}
+			}
+		case 3:
+			// an undeclared name that other templates, in other files, do declare
+			srcs[c.BreakFile] += "\n/** */\n{template .zzBroken}{$zzUndeclared}{/template}\n"
+			seenNS := map[string]bool{c.Prog.Prog.Files[c.BreakFile].Namespace: true}
+			for k := range srcs {
+				if ns := c.Prog.Prog.Files[k].Namespace; !seenNS[ns] {
+					seenNS[ns] = true
+					srcs[k] += "\n/** @param? zzUndeclared */\n{template .zzCand}{$zzUndeclared ?: 'c'}{/template}\n"
+				}
+			}
+		default:
+			srcs[c.BreakFile] += "\n/** */\n{template .zzBroken}{call .zzNoSuchTemplate /}{/template}\n"
+		}
 	}
 	if c.TrickyKeys && len(srcs) > 0 {
 		srcs[0] += c13TrickyKeys
@@ -383,6 +412,7 @@ func genC13(t *rapid.T) C13Case {
 	c := C13Case{Prog: pc, BreakFile: -1, TrickyKeys: rapid.IntRange(0, 2).Draw(t, "trickyKeys") == 0}
 	if rapid.IntRange(0, 7).Draw(t, "break") == 0 {
 		c.BreakFile = rapid.IntRange(0, len(pc.Prog.Files)-1).Draw(t, "breakFile")
+		c.BreakKind = rapid.IntRange(0, 3).Draw(t, "breakKind")
 	}
 	if rapid.IntRange(0, 5).Draw(t, "syntax") == 0 {
 		for i := range pc.Prog.Files {
